@@ -606,8 +606,12 @@ func c27Catalog() []c27Entry {
 
 		return isaacnetwork.NewNodeChallengeRequestHeader(input, nil, nil), fmt.Sprintf("in%d", len(input)), len(input) > 0
 	})
-	hdr("suffrage-node-conninfo-header", func(rt *rapid.T) (any, string, bool) { return isaacnetwork.NewSuffrageNodeConnInfoRequestHeader(), "", false })
-	hdr("sync-source-conninfo-header", func(rt *rapid.T) (any, string, bool) { return isaacnetwork.NewSyncSourceConnInfoRequestHeader(), "", false })
+	hdr("suffrage-node-conninfo-header", func(rt *rapid.T) (any, string, bool) {
+		return isaacnetwork.NewSuffrageNodeConnInfoRequestHeader(), "", false
+	})
+	hdr("sync-source-conninfo-header", func(rt *rapid.T) (any, string, bool) {
+		return isaacnetwork.NewSyncSourceConnInfoRequestHeader(), "", false
+	})
 	hdr("state-header", func(rt *rapid.T) (any, string, bool) {
 		key := rapid.SampledFrom([]string{"suffrage", "network_policy", "k \"q\" é", ""}).Draw(rt, "key")
 		if rapid.Bool().Draw(rt, "hasHash") {
@@ -822,7 +826,6 @@ func c27Catalog() []c27Entry {
 
 	return cat
 }
-
 
 // ---------------------------------------------------------------------------------------------------------------------
 // helpers
@@ -1425,7 +1428,7 @@ func TestC27(t *testing.T) {
 		e := cat[i]
 
 		t.Run(e.Name, func(t *testing.T) {
-			r.Checks(40, 3000)
+			r.Checks(40, 2000)
 			rapid.Check(t, func(rt *rapid.T) {
 				o := e.Gen(rt)
 
@@ -1497,9 +1500,8 @@ func TestC27(t *testing.T) {
 
 	sort.Strings(uncovered)
 	sort.Strings(uncoveredTop)
-	r.Extra("hints_registered", len(all))
-	r.Extra("hints_round_tripped_top_level", len(all)-len(uncoveredTop))
-	r.Extra("hints_only_nested", len(uncoveredTop)-len(uncovered))
+	r.Extra("hints", fmt.Sprintf("%d registered by launch.LoadHinters; %d round-tripped as the top-level object; %d seen only nested inside another object; %d never generated",
+		len(all), len(all)-len(uncoveredTop), len(uncoveredTop)-len(uncovered), len(uncovered)))
 	r.Extra("hints_uncovered", uncovered)
 
 	if !r.Failed() && len(uncovered) > 0 {
